@@ -8,15 +8,18 @@ EXTENDS Retry, Json
 
 CONSTANTS
   Starts,      \* instants at which a caller may start
-  CtxChoices,  \* context ends (NoEnd = -1 included or not)
+  CtxChoices,  \* context ends (a context that never ends is always among the choices)
+  Rich,        \* BOOLEAN: the larger alphabet of the thorough exhaustive config
   Sim          \* BOOLEAN: weighted alphabet of the simulation config
 
 \* the alphabet of the exhaustive configs (Base = 1: one tick per second)
 SmallAlphabet ==
   { Resp("ok", "none", 0), Resp("other", "none", 0), Resp("bad200", "none", 0), Resp("neterr", "none", 0),
     Resp("redir", "none", 0), Resp("s408", "none", 0), Resp("s429", "none", 0), Resp("s503", "none", 0),
-    Resp("s503", "secs", 2 * Base), Resp("s429", "date", 3 * Base), Resp("s503", "secs", 0),
-    Resp("s408", "secs", 5 * Base) }   \* Retry-After on a 408 is not looked at
+    Resp("s503", "secs", 2 * Base), Resp("s429", "date", 3 * Base) }
+  \cup (IF Rich THEN { Resp("s503", "secs", 0), Resp("s429", "secs", 6 * Base),
+                       Resp("s408", "secs", 5 * Base) }   \* Retry-After on a 408 is not looked at
+        ELSE {})
 
 \* simulation (Base = 1000): a sequence, so that RandomElement over its indices is a weighted choice
 SimAlphabet ==
@@ -31,10 +34,10 @@ SimAlphabet ==
 SimSet == {SimAlphabet[i] : i \in 1..Len(SimAlphabet)}
 
 Alphabet == IF Sim THEN SimSet ELSE SmallAlphabet
-Tail == Resp("s503", "none", 0)
+TailResp == Resp("s503", "none", 0)
 
 RespChoices(c) ==
-  IF n[c] >= MaxLen THEN {Tail}
+  IF n[c] >= MaxLen THEN {TailResp}
   ELSE IF n[c] = MaxLen - 1 /\ ctxEnd[c] = NoEnd THEN {r \in Alphabet : r.cls \in Terminal}
   ELSE Alphabet
 
@@ -42,7 +45,7 @@ MCInit ==
   /\ now = 0 /\ mult = 0 /\ notBefore = 0 /\ askUntil = 0
   /\ pc = [c \in Callers |-> "waiting"]
   /\ until \in [Callers -> Starts]
-  /\ ctxEnd \in [Callers -> CtxChoices]
+  /\ ctxEnd \in [Callers -> CtxChoices \cup {NoEnd}]
   /\ ctxDone = [c \in Callers |-> FALSE]
   /\ result = [c \in Callers |-> NoRes]
   /\ lastResp = [c \in Callers |-> NoResp]
@@ -70,7 +73,7 @@ Finish ==
   /\ hist' = Append(hist, End)
   /\ UNCHANGED <<now, mult, notBefore, pc, ctxEnd, ctxDone, until, result, lastResp, n,
                  lastPost, minNext, askUntil, waitAt>>
-SimResp(c) == IF n[c] >= MaxLen THEN Tail
+SimResp(c) == IF n[c] >= MaxLen THEN TailResp
               ELSE IF n[c] = MaxLen - 1 /\ ctxEnd[c] = NoEnd
                      THEN RandomElement({r \in SimSet : r.cls \in Terminal})
                      ELSE SimAlphabet[RandomElement(1..Len(SimAlphabet))]
